@@ -151,6 +151,51 @@ pub fn task_sets(tier: Tier) -> Vec<TaskSet> {
             }
         }
     }
+    // four tasks: two of them fixed (singleton start domains) so that two separate profiles with
+    // a gap of 0, 1 or 2 time units exist from the start, one long flexible task that can span
+    // both profiles and the gap, and one short flexible task that fits into the gap
+    let fixed_pairs: Vec<(i32, i32)> = if tier.quick() {
+        vec![(0, 2), (0, 3), (1, 2)]
+    } else {
+        vec![(0, 1), (0, 2), (0, 3), (1, 2), (1, 3), (-1, 1), (0, 4)]
+    };
+    let long: Vec<(Vec<i32>, i32)> = if tier.quick() {
+        vec![(vec![0, 1, 2, 3], 3), (vec![0, 1, 2], 4)]
+    } else {
+        vec![(vec![0, 1, 2, 3], 3), (vec![0, 1, 2], 4), (vec![-1, 0, 1, 2], 3), (vec![0, 1, 2, 3], 2)]
+    };
+    let short: Vec<(Vec<i32>, i32, i32)> = if tier.quick() {
+        vec![(vec![0, 1, 2, 3, 4], 1, 2), (vec![0, 1, 2, 3], 1, 1)]
+    } else {
+        vec![(vec![0, 1, 2, 3, 4], 1, 2), (vec![0, 1, 2, 3], 1, 1), (vec![0, 1, 2, 3, 4], 2, 2), (vec![-1, 0, 1, 2, 3], 1, 2)]
+    };
+    for (pa, pb) in &fixed_pairs {
+        for fd in [1, 2] {
+            for (ldom, ld) in &long {
+                for (sdom, sd, su) in &short {
+                    for cap in [2, 3] {
+                        for order in 0..2 {
+                            // order 0: a b long short; order 1: short long b a (different ids and
+                            // different fixing order under InputOrder branching)
+                            let a = (VarDecl::from_values(&[*pa]), fd, 1);
+                            let b = (VarDecl::from_values(&[*pb]), 1, 1);
+                            let l = (VarDecl::from_values(ldom), *ld, 1);
+                            let sh = (VarDecl::from_values(sdom), *sd, *su);
+                            let tasks = if order == 0 { vec![a, b, l, sh] } else { vec![sh, l, b, a] };
+                            out.push(TaskSet {
+                                vars: tasks.iter().map(|t| t.0.clone()).collect(),
+                                starts: (0..4).map(View::id).collect(),
+                                durations: tasks.iter().map(|t| t.1).collect(),
+                                usages: tasks.iter().map(|t| t.2).collect(),
+                                cap,
+                                side: None,
+                            });
+                        }
+                    }
+                }
+            }
+        }
+    }
     out
 }
 
@@ -163,7 +208,7 @@ impl Property for C08 {
     }
     fn rule(&self, tier: Tier) -> String {
         format!(
-            "All task sets with 2 tasks (start domains from {} shapes incl. negative values and holes, start views x/-x{}, durations and usages 0..{}, capacities 1..{}) and a family of 3-task sets (with and without a side constraint), each under ALL 144 CumulativeOptions; a case = (task set, option combination, brancher picked by case index from 3); the complete solution set obtained by iteration is compared with the time-point reference semantics. Non-trivial = the reference solution set is neither empty nor everything.",
+            "All task sets with 2 tasks (start domains from {} shapes incl. negative values and holes, start views x/-x{}, durations and usages 0..{}, capacities 1..{}) a family of 3-task sets (with and without a side constraint) and a family of 4-task sets (two fixed tasks leaving a gap of 0-2 time units, a long flexible task that can span both and a short one that fits the gap), each under ALL 144 CumulativeOptions; a case = (task set, option combination, brancher picked by case index from 3); the complete solution set obtained by iteration is compared with the time-point reference semantics. Non-trivial = the reference solution set is neither empty nor everything.",
             start_shapes(tier).len(),
             if tier.quick() { "" } else { "/x+1/2x" },
             if tier.quick() { 2 } else { 3 },
